@@ -265,12 +265,21 @@ def configs(pid, tr):
         a3d = alphabet(3, [1], [2, 3], ["a", "b"], ack_about=[1, 2])
         res.append((dict(name="n3dup", N=3, Byz=[1], Contents=["a", "b"], HonestB=[(2, 1, "a")], AdvSet=a3d, MaxInject=3, MaxCopies=2,
                          Deliveries=False), "sets", {}))
+        # a two-party session (one voucher suffices): acknowledgements about the receiver, the sender and a node outside the session
+        a2 = alphabet(2, [1], [2], ["a", "b"], msgP=["a"], ack_about=[1, 2, 9])
+        res.append((dict(name="n2ack", N=2, Byz=[1], Outsiders=[9], Contents=["a", "b"], AdvSet=a2, MaxInject=3, MaxCopies=2, Deliveries=False,
+                         mode="sign"), "sets", {}))
+        # three parties, two of them deviating: acknowledgements about an outsider from both
+        a3b2 = alphabet(3, [1, 2], [3], ["a"], ack_about=[1, 2, 9], msg_from=[1])
+        res.append((dict(name="n3b2out", N=3, Byz=[1, 2], Outsiders=[9], Contents=["a"], AdvSet=a3b2, MaxInject=3, MaxCopies=1, Deliveries=False),
+                    "sets", {}))
         a3m = alphabet(3, [1], [2, 3], ["a", "b"], ack_from=[])
         res.append((dict(name="n3dup4", N=3, Byz=[1], Contents=["a", "b"], AdvSet=a3m, MaxInject=4, MaxCopies=2, Deliveries=False), "sets", {}))
         a3e = alphabet(3, [1], [2, 3], ["a", "b"])
         res.append((dict(name="n3edges", N=3, Byz=[1], Contents=["a", "b"], HonestB=[(2, 1, "a")], AdvSet=a3e, MaxInject=2), "edges", {}))
         a4 = alphabet(4, [1], [2, 3, 4], ["a", "b"])
-        res.append((dict(name="n4b1", N=4, Byz=[1], Contents=["a", "b"], AdvSet=a4, MaxInject=4), "exhaustive+simulate", dict(num=300, depth=25)))
+        res.append((dict(name="n4b1", N=4, Byz=[1], Contents=["a", "b"], AdvSet=a4, MaxInject=3 if tr == "quick" else 5), "exhaustive+simulate",
+                    dict(num=300, depth=25)))
         if tr == "thorough":
             a42 = alphabet(4, [1, 2], [3, 4], ["a", "b"], msg_from=[1])
             res.append((dict(name="n4b2", N=4, Byz=[1, 2], Contents=["a", "b"], HonestB=[(3, 1, "a")], AdvSet=a42, MaxInject=5),
